@@ -1159,11 +1159,15 @@ func (e *Exec) guardObl(f *frame, gu *guardUse, h *Heap, g string, in ssa.Instru
 		return
 	}
 	e.compDecl("LOCKS", "(Array Ref Bool)")
+	e.compDecl("RLOCKS", "(Array Ref Bool)")
 	t := sel(e.hget(h, "LOCKS"), gu.mref)
 	e.callOrd["guard:"+gu.gi.comp]++
 	kind := "read"
 	if write {
 		kind = "write"
+	} else {
+		// a read is also fine under a shared (read) acquisition of an RWMutex; a write needs the exclusive one
+		t = "(or " + t + " " + sel(e.hget(h, "RLOCKS"), gu.mref) + ")"
 	}
 	e.addObligation(f, "lock-held", gu.gi.clause, fmt.Sprintf("%s.%s@%s%d", labelOr(gu.gi.clause, "guarded"), kind, f.path, e.callOrd["guard:"+gu.gi.comp]), g, t, in.Pos())
 }
@@ -1182,12 +1186,17 @@ func (e *Exec) lockOps(sp *FuncSpec, args []Val, post *Heap) {
 		}
 		return Val{}, false
 	}
+	e.compDecl("RLOCKS", "(Array Ref Bool)")
 	for _, pn := range sp.Acquires {
+		lockComp := "LOCKS"
+		if strings.HasPrefix(pn, "read:") {
+			pn, lockComp = strings.TrimPrefix(pn, "read:"), "RLOCKS"
+		}
 		m, ok := find(pn)
 		if !ok {
 			panic("acquires: no parameter " + pn + " in " + sp.Key)
 		}
-		post.m["LOCKS"] = store(e.hget(post, "LOCKS"), m.T, "true")
+		post.m[lockComp] = store(e.hget(post, lockComp), m.T, "true")
 		// whatever the mutex protects may have been changed by its previous holders
 		mc := ""
 		if m.A != nil && len(m.A.Path) == 0 {
@@ -1224,11 +1233,15 @@ func (e *Exec) lockOps(sp *FuncSpec, args []Val, post *Heap) {
 		}
 	}
 	for _, pn := range sp.Releases {
+		lockComp := "LOCKS"
+		if strings.HasPrefix(pn, "read:") {
+			pn, lockComp = strings.TrimPrefix(pn, "read:"), "RLOCKS"
+		}
 		m, ok := find(pn)
 		if !ok {
 			panic("releases: no parameter " + pn + " in " + sp.Key)
 		}
-		post.m["LOCKS"] = store(e.hget(post, "LOCKS"), m.T, "false")
+		post.m[lockComp] = store(e.hget(post, lockComp), m.T, "false")
 	}
 }
 
